@@ -9,4 +9,4 @@ cp "$WT/demo_$P.py" "$D/demo_$P.py"
 cd "$WT"
 PYTHONPATH=/repo/src /venv/bin/python demo_$P.py > "$D/demo_pristine.log" 2>&1; echo "demo on pristine /repo: exit $?" | tee "$D/confirm.log"
 PYTHONPATH="$WT/src" /venv/bin/python demo_$P.py > "$D/demo_changed.log" 2>&1; echo "demo on changed tree: exit $?" | tee -a "$D/confirm.log"
-PYTHONPATH="$WT/src" /venv/bin/python -m pytest -q -p no:cacheprovider -n 6 src/grid/tests 2>&1 | tail -1 | tee -a "$D/confirm.log"
+OMP_NUM_THREADS=1 OPENBLAS_NUM_THREADS=1 PYTHONPATH="$WT/src" /venv/bin/python -m pytest -q -p no:cacheprovider -n 4 src/grid/tests 2>&1 | tail -1 | tee -a "$D/confirm.log"
